@@ -184,7 +184,7 @@ Violations(s, e, s2) ==
               Mon("NoErr", NoErr(e)) \cup Mon("RejectedOK", RejectedOK(s, e)) \cup Mon("StaleGone", StaleGone(cfg, s, e))
               \cup Mon("FaultOK", FaultOK(cfg, s, e)) \cup Mon("FollowUpOK", FollowUpOK(s, e)) \cup Mon("NoLeak", NoLeak(cfg, s, e))
               \cup Mon("NoResidue", NoResidue(s, e)) \cup Mon("TwoOpensPerDir", TwoOpensPerDir(s, e))
-              \cup Mon("OneCopy", OneCopy(cfg, s)) \cup Mon("UnexplainedLoss", UnexplainedLoss(cfg, s, e, s2))
+              \cup Mon("NoLaterLookups", NoLaterLookups(cfg, s, e)) \cup Mon("TouchMarksFirstOnly", TouchMarksFirstOnly(cfg, s, e)) \cup Mon("OneCopy", OneCopy(cfg, s)) \cup Mon("UnexplainedLoss", UnexplainedLoss(cfg, s, e, s2))
               \cup Mon("SrcConsumed", SrcConsumed(e)) \cup Mon("ReadMarks", ReadMarks(cfg, s, e)) \cup Mon("FreshOnWrite", FreshOnWrite(cfg, s, e))
           ELSE {})
     \cup (IF isSys /\ e.call = "close" /\ e.p \in DOMAIN s.prune /\ s.prune[e.p].fd = e.fd /\ InLib(e)
